@@ -61,7 +61,7 @@ thread_local! {
     static ALLOW_FINE: std::cell::Cell<bool> = const { std::cell::Cell::new(false) };
     static ALLOW_UNSUPPORTED: std::cell::Cell<bool> = const { std::cell::Cell::new(false) };
 }
-const LAYERS: &[&str] = &["met1", "met2", "via1", "poly", "nwell", "M3.pin", "li1"];
+const LAYERS: &[&str] = &["met1", "met2", "via1", "poly", "nwell", "M3.pin", "li1", "MET1", "Met2", "VIA1"];
 #[derive(Clone, Debug, Default)]
 pub struct Flags {
     fine: bool,        // a coordinate that is not a whole number of raw units
@@ -226,6 +226,42 @@ fn strip_empty(m: BTreeMap<String, Vec<XShape>>) -> BTreeMap<String, Vec<XShape>
 }
 
 fn oracle(lib: &LefLibrary, f: &Flags, ctx: &mut Ctx) -> Result<(), String> {
+    match lib.units.as_ref().and_then(|u| u.database_microns.as_ref()) {
+        None => ctx.label("no DATABASE MICRONS"),
+        Some(d) => ctx.label(&format!("DATABASE MICRONS {}", d.0)),
+    }
+    {
+        let geoms = || lib.macros.iter().flat_map(|m| m.pins.iter().flat_map(|p| p.ports.iter().flat_map(|q| q.layers.iter())).chain(m.obs.iter())).flat_map(|l| l.geometries.iter());
+        let mut kinds = [false; 4];
+        for g in geoms() {
+            if let LefGeometry::Shape(s) = g {
+                match s {
+                    LefShape::Rect(..) => kinds[0] = true,
+                    LefShape::Polygon(_, pts) => {
+                        kinds[1] = true;
+                        if pts.len() > 2 && pts.first() == pts.last() {
+                            kinds[3] = true;
+                        }
+                    }
+                    LefShape::Path(_, pts) => {
+                        kinds[2] = true;
+                        if pts.len() > 2 && pts.first() == pts.last() {
+                            kinds[3] = true;
+                        }
+                    }
+                }
+            }
+        }
+        for (k, name) in ["has a RECT", "has a POLYGON", "has a PATH", "point list ending on its first point"].iter().enumerate() {
+            if kinds[k] {
+                ctx.label(name);
+            }
+        }
+        let names: Vec<&String> = lib.macros.iter().flat_map(|m| m.pins.iter().flat_map(|p| p.ports.iter().flat_map(|q| q.layers.iter())).chain(m.obs.iter())).map(|l| &l.layer_name).collect();
+        if names.iter().any(|a| names.iter().any(|b| a != b && a.eq_ignore_ascii_case(b))) {
+            ctx.label("layer names differing only in letter case");
+        }
+    }
     let res = raw::lef::LefImporter::import(lib, None);
     let rl = match res {
         Err(e) => {
